@@ -100,9 +100,9 @@ CHECKS = {
         "note": "'Same state' = observable snapshot (all public inspection results, wall-clock lines removed) + continuation; private attributes are not compared.",
     },
     "C16": {
-        "engine": "lifecycle", "ref": "DESIGN.md section 4, C16", "technique": _T + "twin-object monitor: inspected twin vs. blind twin compared on the observable snapshot",
-        "text": "Twin A calls random subsets and repetitions of all 13 (TOY: 6) inspection functions between steps (TOY also between half cycles); twin B is stepped without any inspection until a random step k and is compared with A on the full snapshot after every later step and at the end; both RISC-V modes x random D/I cache configurations (LRU and PLRU, conflict-heavy) x hazard flag, and TOY.",
-        "note": "Idempotent-but-impure inspections are caught because B is uninspected before step k.",
+        "engine": "lifecycle", "ref": "DESIGN.md section 4, C16 (+ section 9)", "technique": _T + "twin-object monitor: inspected twin vs. never-inspected twin (deepcopy inspected at comparison points, independent random call orders)",
+        "text": "Twin A calls random subsets and repetitions of all 13 (TOY: 6) inspection functions between steps (TOY also between half cycles); twin B is never inspected: at comparison points (every step, every k-th step, or only at the end) a deepcopy of B is inspected and compared with A on the full snapshot, the two snapshots calling the inspection functions in independent random orders, so an inspection that changes its own later result, another inspection's result or later behaviour is observed; both RISC-V modes x random D/I cache configurations (LRU and PLRU, conflict-heavy) x hazard flag, and TOY.",
+        "note": "Idempotent-but-impure inspections and order dependencies between inspection functions are caught because B itself is never inspected.",
     },
     "C17": {
         "engine": "fmt", "ref": "DESIGN.md section 4, C17", "technique": _T + "wrapper on the formatter checking every call; exhaustive 12/16-bit sweeps; table monitors with a shadow of written addresses",
